@@ -1318,6 +1318,13 @@ fn logical_px(fam: Fam, v: [V; 4], one: V, zero: V) -> [V; 4] {
 pub fn run(line: &str) -> Option<(String, Vec<String>)> {
     let t = toks(line);
     match *t.first()? {
+        "q32" => {
+            if t.len() != 3 {
+                return None;
+            }
+            let vals: Option<Vec<u32>> = t[2].split(',').map(|h| if h.is_empty() || h.len() > 8 { None } else { u32::from_str_radix(h, 16).ok() }).collect();
+            q32_run(t[1], &vals?)
+        }
         "sup" => {
             let f = find(t.get(1)?)?;
             let s = f.fmt.encoding_support()?;
@@ -1405,6 +1412,112 @@ pub fn run(line: &str) -> Option<(String, Vec<String>)> {
 }
 
 // ------------------------------------------------------------------------------------------
+// `q32 <quantiser> <hex,…>`: the binary32 quantisers `nK::from_f32`, `s8::from_uf32` one value at a time
+// (tie of the bit-level models `QuantBits.*` / `QuantF32.*`; no tolerance in the tie, the model is bit-exact)
+
+/// (name, format, rgba carrier, field kind, shift, mask)
+const Q32: [(&str, Format, bool, K, u32, u32); 8] = [
+    ("n2", Format::R10G10B10A2_UNORM, true, U(2), 30, 3),
+    ("n4", Format::B4G4R4A4_UNORM, true, U(4), 0, 15),
+    ("n5", Format::B5G6R5_UNORM, true, U(5), 0, 31),
+    ("n6", Format::B5G6R5_UNORM, true, U(6), 5, 63),
+    ("n8", Format::R8_UNORM, false, U(8), 0, 255),
+    ("n10", Format::R10G10B10A2_UNORM, true, U(10), 0, 1023),
+    ("n16", Format::R16_UNORM, false, U(16), 0, 65535),
+    ("s8", Format::R8_SNORM, false, S(8), 0, 255),
+];
+
+fn q32_run(name: &str, vals: &[u32]) -> Option<(String, Vec<String>)> {
+    let &(_, fmt, rgba, kind, shift, mask) = Q32.iter().find(|q| q.0 == name)?;
+    if vals.is_empty() || vals.len() > 4096 {
+        return None;
+    }
+    let mut data: Vec<u8> = vec![];
+    for v in vals {
+        for _ in 0..(if rgba { 4 } else { 1 }) {
+            data.extend_from_slice(&f32::from_bits(*v).to_ne_bytes());
+        }
+    }
+    let color = ColorFormat::new(if rgba { Channels::Rgba } else { Channels::Grayscale }, Precision::F32);
+    let view = ImageView::new(&data, Size::new(vals.len() as u32, 1), color)?;
+    let mut out = Vec::new();
+    let mut opt = EncodeOptions::default();
+    opt.parallel = false;
+    if let Err(e) = encode(&mut out, view, fmt, None, &opt) {
+        return Some((format!("err {}", err_name(&e)), vec![]));
+    }
+    let unit = out.len() / vals.len();
+    let mut codes = vec![];
+    let mut o = Oracle { msgs: vec![] };
+    for (i, v) in vals.iter().enumerate() {
+        let mut word: u32 = 0;
+        for j in 0..unit {
+            word |= (out[i * unit + j] as u32) << (8 * j);
+        }
+        let code = (word >> shift) & mask;
+        codes.push(code.to_string());
+        // the property's own clause: the stored code decodes to within half a step of the clamped input
+        // (tie tolerance of binary32-evaluated fields as in `pixel_loose`); nothing is demanded for NaN
+        let c = classify_f32(*v);
+        if c == FC::Nan {
+            continue;
+        }
+        let l = levels(kind);
+        let stored = match kind {
+            S(_) => ((code as u8).wrapping_add(128)).saturating_sub(1) as i128, // `s8::norm`
+            _ => code as i128,
+        };
+        let ideal = clamp01(c).mul(Q::int(l));
+        let bound = Q::new(1, 2).add(tol_steps(kind));
+        if !Q::int(stored).sub(ideal).abs().le(bound) {
+            o.say(format!("nearest: {name}::from_f32 input f32:{v:08x} stored {stored} ideal {} of {l}", ideal.show()));
+        }
+    }
+    Some((format!("q {}", codes.join(",")), o.msgs))
+}
+
+fn gen_q32(out: &mut Vec<String>, rng: &mut Rng, thorough: bool) {
+    for &(name, _, _, kind, _, _) in Q32.iter() {
+        let l = levels(kind) as u128;
+        let mut vals: Vec<u32> = vec![];
+        // every tie (2k-1)/(2L): the nearest float and its two neighbours on each side (the first pattern of the
+        // code k, its predecessor and its successor are among them); for 16 bits a sample in the quick tier
+        for k in 1..=l {
+            let all = l <= 1023 || thorough || k <= 300 || k + 300 > l || (k + 300 > 32768 && k < 32768 + 300) || k % 61 == 0;
+            if !all {
+                continue;
+            }
+            let m = nearest_f32(2 * k - 1, 2 * l);
+            for d in 0..5u32 {
+                vals.push(m.wrapping_add(d).wrapping_sub(2));
+            }
+        }
+        // grid points and random values
+        for k in 0..=l.min(1023) {
+            vals.push(nearest_f32(k * (l / l.min(1023)), l));
+        }
+        for _ in 0..(if thorough { 20000 } else { 2000 }) {
+            vals.push(match rng.below(4) {
+                0 => rng.below(1 << 32) as u32,
+                1 => 0x3F80_0000 - rng.below(1 << 24) as u32,
+                2 => nearest_f32(rng.below(1 << 24) as u128, 1 << 24),
+                _ => 0x3000_0000 + rng.below(0x1000_0000) as u32,
+            });
+        }
+        // classes: zeros, subnormals, negatives, > 1, huge, infinities, NaNs (quiet / signalling, both signs)
+        vals.extend(SPEC_IN);
+        vals.extend(SPEC_SMALL);
+        vals.extend(SPEC_OUT);
+        vals.extend(NONFINITE);
+        vals.extend([0x7F80_0001, 0x7FFF_FFFF, 0xFF80_0001, 0xFFFF_FFFF, 0x7FA0_0000, 0x0000_0000, 0x8000_0000, 0x0040_0000,
+            0x8040_0000, 0x3F80_0001, 0x3F7F_FFFF, 0x4380_0000, 0x4780_0000, 0x4F00_0000, 0xCF00_0000, 0x7F7F_FFFF]);
+        for chunk in vals.chunks(64) {
+            out.push(format!("q32 {name} {}", hexlist(chunk)));
+        }
+    }
+}
+
+// ------------------------------------------------------------------------------------------
 // generator
 
 fn f32_kind(v: &[u32]) -> &'static str {
@@ -1483,6 +1596,7 @@ pub fn gen(seed: u64, thorough: bool) -> Vec<String> {
     for f in FORMATS.iter() {
         out.push(format!("sup {}", f.name));
     }
+    gen_q32(&mut out, &mut rng, thorough);
     let fams = [Fam::G, Fam::A, Fam::Rgb, Fam::Rgba];
     let head = std::mem::take(&mut out);
     let mut per_format: Vec<Vec<String>> = vec![];
